@@ -538,6 +538,48 @@ var paramNames = []string{"a", "b", "x"}
 type Gen struct {
 	// IllFormed allows the labelled ill-formed classes: over-application and calling a non-function.
 	IllFormed bool
+	// Eta adds lambdas whose body is a call starting with (some of) their own
+	// parameters, the shape Simplify rewrites.
+	Eta bool
+}
+
+// eta generates a lambda of n parameters whose body is a call of a library
+// function with the parameters used in order, out of order, twice or not at all.
+func (g Gen) eta(t *rapid.T, scope []binding, n int, depth int) E {
+	k := func() E { return g.Expr(t, scope, tInt, 0) }
+	a, b := Sym("a"), Sym("b")
+	op := rapid.SampledFrom([]string{"add", "sub", "div", "mul"}).Draw(t, "etaop")
+	if n == 1 {
+		shapes := []E{
+			Lam([]string{"a"}, CallSym(op, a, k())),
+			Lam([]string{"a"}, CallSym(op, a, a)),
+			Lam([]string{"a"}, CallSym(op, k(), a)),
+			Lam([]string{"a"}, CallSym(op, a, CallSym("neg", a))),
+			Lam([]string{"a"}, CallSym("neg", a)),
+			Lam([]string{"a"}, CallSym("sub3", a, k(), a)),
+			Lam([]string{"a"}, CallSym("sub3", a, k(), k())),
+			Lam([]string{"a"}, CallSym(op, a, CallSym("div", k(), k()))),
+			Lam([]string{"a"}, CallSym(op, a, CallSym(op, k(), k()))),
+			Lam([]string{"a"}, Call(CallSym(op, a), a)),
+			Lam([]string{"a"}, CallSym("apply", Lam([]string{"b"}, CallSym(op, b, a)), a)),
+		}
+		if depth > 0 {
+			shapes = append(shapes, Lam([]string{"a"}, CallSym(op, a, g.Expr(t, append(append([]binding{}, scope...), binding{"a", tInt}), tInt, depth-1))))
+		}
+		return shapes[rapid.IntRange(0, len(shapes)-1).Draw(t, "eta1")]
+	}
+	shapes := []E{
+		Lam([]string{"a", "b"}, CallSym(op, a, b)),
+		Lam([]string{"a", "b"}, CallSym(op, b, a)),
+		Lam([]string{"a", "b"}, CallSym(op, a, a)),
+		Lam([]string{"a", "b"}, CallSym("sub3", a, b, k())),
+		Lam([]string{"a", "b"}, CallSym("sub3", a, b, b)),
+		Lam([]string{"a", "b"}, CallSym("sub3", a, k(), b)),
+		Lam([]string{"a", "b"}, CallSym("neg", a)),
+		Lam([]string{"a", "b"}, CallSym(op, a)),
+		Lam([]string{"a", "b"}, CallSym(op, a, k())),
+	}
+	return shapes[rapid.IntRange(0, len(shapes)-1).Draw(t, "eta2")]
 }
 
 func (g Gen) vars(scope []binding, t typ) []string {
@@ -575,6 +617,9 @@ func (g Gen) Expr(t *rapid.T, scope []binding, want typ, depth int) E {
 	case tPair:
 		return CallSym("pair", g.Expr(t, scope, tInt, depth-1), g.Expr(t, scope, tInt, depth-1))
 	case tFn1:
+		if g.Eta && rapid.IntRange(0, 2).Draw(t, "eta") == 0 {
+			return g.eta(t, scope, 1, depth)
+		}
 		opts := []string{"lam", "neg", "partial"}
 		if depth > 0 {
 			opts = append(opts, "lam", "compose", "partial-lam", "partial-partial", "returned", "zero-args")
@@ -604,6 +649,9 @@ func (g Gen) Expr(t *rapid.T, scope []binding, want typ, depth int) E {
 		}
 		return g.lambda(t, scope, []typ{tInt}, depth)
 	case tFn2:
+		if g.Eta && rapid.IntRange(0, 2).Draw(t, "eta") == 0 {
+			return g.eta(t, scope, 2, depth)
+		}
 		opts := []string{"lam", "sym"}
 		if len(g.vars(scope, tFn2)) > 0 {
 			opts = append(opts, "var")
@@ -680,4 +728,24 @@ func (g Gen) Program(t *rapid.T, depth int) E {
 		return g.Expr(t, nil, tPair, depth)
 	}
 	return g.Expr(t, nil, tInt, depth)
+}
+
+// Free returns the free symbols of e: those not bound by an enclosing lambda of e.
+func Free(e b6.Expression, bound []string, out map[string]bool) {
+	switch x := e.AnyExpression.(type) {
+	case b6.SymbolExpression:
+		for _, b := range bound {
+			if b == string(x) {
+				return
+			}
+		}
+		out[string(x)] = true
+	case b6.LambdaExpression:
+		Free(x.Expression, append(append([]string{}, bound...), x.Args...), out)
+	case b6.CallExpression:
+		Free(x.Function, bound, out)
+		for _, a := range x.Args {
+			Free(a, bound, out)
+		}
+	}
 }
